@@ -458,27 +458,28 @@ theorem stepParam {t L r σ a : ℝ} (hL : 0 < L) (hr : 0 < r) (hσ : 0 < σ)
     0 < a ∧ 0 < 2 * t - L / r ∧ (2 * t - L / r) * (1 - r / √(a ^ 2 + r ^ 2)) / 2 = σ * L / r := by
   have ht' : L * (1 / 2 + σ) < t * r := (div_lt_iff₀ hr).mp ht
   have hσL : 0 < σ * L := mul_pos hσ hL
-  have hD : 0 < 2 * r * t - L * (1 + 2 * σ) := by nlinarith
-  have h1 : 0 < 2 * r * t - L * (1 + σ) := by nlinarith
-  have h2 : 0 < 2 * r * t - L := by nlinarith
-  have hX : 0 < 4 * σ * L * r ^ 2 * (2 * r * t - L * (1 + σ)) := by positivity
-  rw [abs_of_pos hD] at ha
+  obtain ⟨N, eN⟩ : ∃ N, N = 2 * r * t - L := ⟨_, rfl⟩
+  obtain ⟨D, eD⟩ : ∃ D, D = N - 2 * σ * L := ⟨_, rfl⟩
+  have hD : 0 < D := by rw [eD, eN]; nlinarith
+  have hN : 0 < N := by nlinarith
+  have h1 : 0 < N - σ * L := by nlinarith
+  have e1 : 2 * r * t - L * (1 + σ) = N - σ * L := by rw [eN]; ring
+  have e2 : 2 * r * t - L * (1 + 2 * σ) = D := by rw [eD, eN]; ring
+  rw [e1, e2, abs_of_pos hD] at ha
+  have hX : 0 < 4 * σ * L * r ^ 2 * (N - σ * L) := by positivity
   have ha0 : 0 < a := by rw [ha]; exact div_pos (Real.sqrt_pos.mpr hX) hD
-  have ha2 : a ^ 2 = 4 * σ * L * r ^ 2 * (2 * r * t - L * (1 + σ))
-      / (2 * r * t - L * (1 + 2 * σ)) ^ 2 := by
+  have ha2 : a ^ 2 = 4 * σ * L * r ^ 2 * (N - σ * L) / D ^ 2 := by
     rw [ha, div_pow, Real.sq_sqrt hX.le]
-  have e : a ^ 2 + r ^ 2 = (r * (2 * r * t - L) / (2 * r * t - L * (1 + 2 * σ))) ^ 2 := by
-    rw [ha2]; field_simp; ring
-  have hP : 0 < 2 * t - L / r := by
-    have : 2 * t - L / r = (2 * r * t - L) / r := by field_simp
-    rw [this]; exact div_pos h2 hr
-  refine ⟨ha0, hP, ?_⟩
-  rw [e, Real.sqrt_sq (div_nonneg (mul_nonneg hr.le h2.le) hD.le)]
   have hr' := hr.ne'
   have hD' := hD.ne'
-  have h2' := h2.ne'
+  have hN' := hN.ne'
+  have e : a ^ 2 + r ^ 2 = (r * N / D) ^ 2 := by
+    rw [ha2]; field_simp; rw [eD]; ring
+  have hPe : 2 * t - L / r = N / r := by rw [eN]; field_simp
+  refine ⟨ha0, by rw [hPe]; exact div_pos hN hr, ?_⟩
+  rw [e, Real.sqrt_sq (by positivity), hPe]
   field_simp
-  ring
+  rw [eD]; ring
 
 namespace Grid3WF
 
@@ -522,12 +523,12 @@ theorem fstep_ge (x : ℝ) :
     have e1 := mul_le_mul_of_nonneg_left hm hPO.le
     have e2 := mul_nonneg hPI.le (show (0 : ℝ) ≤ 1 - (x + s.ratioPointsWall)
       / √(s.aIn ^ 2 + (x + s.ratioPointsWall) ^ 2) by linarith [gi.2])
-    linear_combination hO + e1 / 2 + e2 / 2
+    linear_combination e1 / 2 + e2 / 2 - hO
   · have hm := step_mono haI.ne' (show x + s.ratioPointsWall ≤ s.ratioPointsWall by linarith)
     have e1 := mul_le_mul_of_nonneg_left hm hPI.le
     have e2 := mul_nonneg hPO.le (show (0 : ℝ) ≤ 1 + (x - s.ratioPointsWall)
       / √(s.aOut ^ 2 + (x - s.ratioPointsWall) ^ 2) by linarith [go.1])
-    linear_combination hI + e1 / 2 + e2 / 2
+    linear_combination e1 / 2 + e2 / 2 - hI
 
 end Grid3WF
 
@@ -541,9 +542,141 @@ theorem strictMonoOn_of_hasDerivAt_pos {f f' : ℝ → ℝ} {D : Set ℝ} (hD : 
 /-- A function that is monotone on an open interval has nonnegative derivative there. -/
 theorem deriv_nonneg_of_monotoneOn_Ioo {f : ℝ → ℝ} {u v x d : ℝ} (hx : x ∈ Ioo u v)
     (hf : MonotoneOn f (Ioo u v)) (hd : HasDerivAt f d x) : 0 ≤ d := by
-  have hp : Preperfect (Ioo u v) := by
-    simpa using (PerfectSpace.univ_preperfect ℝ).open_inter (U := Ioo u v) isOpen_Ioo
+  have hp : Preperfect (Ioo u v) := isOpen_Ioo.preperfect
   exact hd.hasDerivWithinAt.nonneg_of_monotoneOn (hp x hx) hf
+
+/-! ### Concrete parameter records -/
+
+/-- A typical admissible three-scale grid (the defaults `r = 1/2`, `σ = 1/10`). -/
+noncomputable def goodGrid : Grid3P where
+  tailLengthInside := 5
+  tailLengthOutside := 5
+  wallThickness := 1
+  ratioPointsWall := 1 / 2
+  smoothing := 1 / 10
+  wallCenter := 2
+  aIn := aIn_set 5 5 1 (1 / 2) (1 / 10) 2
+  aOut := aOut_set 5 5 1 (1 / 2) (1 / 10) 2
+  momentumFalloffT := 1
+
+theorem goodGrid_wf : Grid3WF goodGrid where
+  wallThickness_pos := by norm_num [goodGrid]
+  smoothing_pos := by norm_num [goodGrid]
+  tailIn_gt := by norm_num [goodGrid]
+  tailOut_gt := by norm_num [goodGrid]
+  ratio_pos := by norm_num [goodGrid]
+  ratio_lt_one := by norm_num [goodGrid]
+  aIn_eq := rfl
+  aOut_eq := rfl
+
+/-- A record accepted by every `assert` of `_updateParameters` but with `smoothing = 3 ≥ 1`. -/
+noncomputable def badGrid : Grid3P where
+  tailLengthInside := 107
+  tailLengthOutside := 8
+  wallThickness := 1
+  ratioPointsWall := 1 / 2
+  smoothing := 3
+  wallCenter := 0
+  aIn := aIn_set 107 8 1 (1 / 2) 3 0
+  aOut := aOut_set 107 8 1 (1 / 2) 3 0
+  momentumFalloffT := 1
+
+theorem badGrid_wf : Grid3WF badGrid where
+  wallThickness_pos := by norm_num [badGrid]
+  smoothing_pos := by norm_num [badGrid]
+  tailIn_gt := by norm_num [badGrid]
+  tailOut_gt := by norm_num [badGrid]
+  ratio_pos := by norm_num [badGrid]
+  ratio_lt_one := by norm_num [badGrid]
+  aIn_eq := rfl
+  aOut_eq := rfl
+
+theorem badGrid_aIn_sq : badGrid.aIn ^ 2 = 309 / 10000 := by
+  show (aIn_set 107 8 1 (1 / 2) 3 0) ^ 2 = _
+  unfold aIn_set
+  simp only []
+  rw [div_pow, Real.sq_sqrt (by norm_num), sq_abs]
+  norm_num
+
+/-- For `badGrid` the numerator of the Jacobian is negative at `χ = 1/2`. -/
+theorem badGrid_fstep_neg : fstep badGrid (1 / 2) < 0 := by
+  have hs : √(309 / 10000 + 1 : ℝ) ≤ 102 / 100 := by
+    rw [show (102 / 100 : ℝ) = √((102 / 100) ^ 2) from (Real.sqrt_sq (by norm_num)).symm]
+    exact Real.sqrt_le_sqrt (by norm_num)
+  have hs0 : 0 < √(309 / 10000 + 1 : ℝ) := Real.sqrt_pos.mpr (by norm_num)
+  have hinv : (100 / 102 : ℝ) ≤ 1 / √(309 / 10000 + 1 : ℝ) := by
+    rw [show (100 / 102 : ℝ) = 1 / (102 / 100) by norm_num]
+    exact one_div_le_one_div_of_le hs0 hs
+  have e : fstep badGrid (1 / 2) = 106 * (1 - 1 / √(309 / 10000 + 1 : ℝ)) + 7 - 10 := by
+    unfold fstep
+    rw [badGrid_aIn_sq]
+    simp only [badGrid]
+    norm_num
+    ring
+  rw [e]
+  linarith
+
+/-! ### The compactification a `Grid3Scales` object actually offers -/
+
+/-- `Grid3Scales` does not override `compactify`; it inherits `Grid.compactify`, which uses the
+fields set by `super().__init__(M, N, wallThickness, momentumFalloffT, spacing)`. -/
+def baseGrid (s : Grid3P) : Gen.R.Grid.GridP := ⟨s.wallThickness, s.momentumFalloffT⟩
+
+/-- `d/dz (z/√(L²+z²)) = 1/L` at `z = 0`. -/
+theorem hasDerivAt_zcompact_zero {L : ℝ} (hL : 0 < L) :
+    HasDerivAt (fun z : ℝ => z / √(L ^ 2 + z ^ 2)) (1 / L) 0 := by
+  have hpos : (0 : ℝ) < L ^ 2 + 0 ^ 2 := by positivity
+  have h0 : HasDerivAt (fun z : ℝ => L ^ 2 + z ^ 2) (2 * 0) (0 : ℝ) := by
+    simpa using ((hasDerivAt_id (0 : ℝ)).pow 2).const_add (L ^ 2)
+  have h1 := h0.sqrt hpos.ne'
+  have h2 := (hasDerivAt_id (0 : ℝ)).div h1 (Real.sqrt_pos.mpr hpos).ne'
+  refine h2.congr_deriv ?_
+  have : √(L ^ 2 + 0 ^ 2) = L := by rw [show L ^ 2 + 0 ^ 2 = L ^ 2 by ring, Real.sqrt_sq hL.le]
+  rw [this]; simp only [id]; field_simp; ring
+
+/-- The inherited `compactify` is **not** a left inverse of the three-scale position map on
+`(-1,1)`: at `χ = 0` it returns `c/√(L²+c²)` (`c = wallCenter`), and when `c = 0` the composite
+has slope `1/r ≠ 1` at the origin. -/
+theorem inherited_compactify_not_inverse {s : Grid3P} (h : Grid3WF s) (a b a' b' : ℝ) :
+    ¬ ∀ χ ∈ Ioo (-1 : ℝ) 1,
+      (Gen.R.Grid.compactify (baseGrid s) (decompactify s χ a b).1 a' b').1 = χ := by
+  intro H
+  have hL := h.wallThickness_pos
+  have hr := h.ratio_pos
+  have hmem : (0 : ℝ) ∈ Ioo (-1 : ℝ) 1 := by constructor <;> norm_num
+  have hZ0 : (decompactify s 0 a b).1 = s.wallCenter := by
+    rw [decompactify_fst_eq]; ring
+  have hc : s.wallCenter = 0 := by
+    have H0 := H 0 hmem
+    rw [hZ0] at H0
+    have H0' : s.wallCenter / √(s.wallThickness ^ 2 + s.wallCenter ^ 2) = 0 := H0
+    rcases div_eq_zero_iff.mp H0' with h1 | h1
+    · exact h1
+    · exfalso
+      have : 0 < √(s.wallThickness ^ 2 + s.wallCenter ^ 2) := Real.sqrt_pos.mpr (by positivity)
+      exact this.ne' h1
+  have hZ : HasDerivAt (fun χ => (decompactify s χ a b).1)
+      (s.wallThickness / s.ratioPointsWall) 0 := by
+    have := hasDerivAt_decompactify3_fst (s := s) (χ := 0) a b h.aIn_pos.ne' h.aOut_pos.ne' hr.ne'
+      (by simp)
+    rw [compactificationDerivatives_fst_eq, h.fstep_zero] at this
+    simpa using this
+  have hg : HasDerivAt (fun z : ℝ => z / √(s.wallThickness ^ 2 + z ^ 2)) (1 / s.wallThickness)
+      ((fun χ => (decompactify s χ a b).1) 0) := by
+    show HasDerivAt _ _ (decompactify s 0 a b).1
+    rw [hZ0, hc]; exact hasDerivAt_zcompact_zero hL
+  have hcomp := hg.comp 0 hZ
+  have hid : HasDerivAt ((fun z : ℝ => z / √(s.wallThickness ^ 2 + z ^ 2)) ∘
+      (fun χ => (decompactify s χ a b).1)) 1 0 := by
+    refine (hasDerivAt_id (0 : ℝ)).congr_of_eventuallyEq ?_
+    filter_upwards [Ioo_mem_nhds hmem.1 hmem.2] with χ hχ
+    exact H χ hχ
+  have e := hcomp.unique hid
+  have hr1 := h.ratio_lt_one
+  have : (1 : ℝ) / s.wallThickness * (s.wallThickness / s.ratioPointsWall)
+      = 1 / s.ratioPointsWall := by field_simp
+  rw [this, div_eq_one_iff_eq hr.ne'] at e
+  linarith
 
 end Grid3
 
